@@ -1,4 +1,6 @@
 """Pull-based components for merging multiple inputs into a single output"""
+import copy
+
 from finam.interfaces import ComponentStatus
 
 from ..data.tools import compatible_units, strip_time
@@ -150,5 +152,8 @@ class WeightedSum(Component):
 
             self._out_data = result
             self._last_update = time
+            return self._out_data
 
-        return self._out_data
+        # repeated request for the same time (e.g. several targets):
+        # the output refuses data that shares memory with the previous data
+        return copy.copy(self._out_data)
